@@ -315,7 +315,7 @@ def deviation(ctx, d, b, k, line):
 def sim_part(ctx, d):
     """Returns (stats, violation-dict-or-None, broken-or-None)."""
     if ctx.tier == "quick":
-        batches = [(0, 1500, 400), (1000000, 20, 2000)]
+        batches = [(0, 1200, 400), (1000000, 12, 2000)]
     else:
         batches = [(0, 40000, 400), (1000000, 600, 3000), (2000000, 10, 10000)]
     tot_sched = tot_events = nontriv = 0
@@ -363,6 +363,15 @@ def sim_part(ctx, d):
                     samples.append("schedule %s: %s" % (tok[1], " ".join(tok[3:-1])))
             elif viol is None:
                 viol = deviation(ctx, d, b, tok[1], line)
+        if bi == 0 and not any(x.startswith("trace excerpt") for x in samples):
+            # a few events of the first schedule, as written by the simulator
+            try:
+                with open(b / "traces.txt") as f:
+                    ex = [next(f).rstrip() for _ in range(400)]
+                st = next((i for i, l in enumerate(ex) if l.startswith("EV C")), 1)
+                samples.append("trace excerpt: " + " / ".join(ex[:2] + ex[st:st + 14]))
+            except (StopIteration, OSError):
+                pass
         if viol is None:
             try:
                 (b / "traces.txt").unlink()
